@@ -42,20 +42,6 @@ Lemma witness_second_empty :
   uncovered XAlg db_short F64 m_ab 5 4 = [TEmpty2].
 Proof. vm_compute. auto. Qed.
 
-(* LINCOM 2 a 1 0 b 1 0 (rates 2 and 1): one sample requested, two returned *)
-Lemma witness_lincom_inflation :
-  option_map (@length _) (impl_read XAlg db_ab F64 l_ab 0 1) = Some 2%nat /\
-  length (spec_window XAlg db_ab F64 l_ab 0 1) = 1%nat /\
-  uncovered XAlg db_ab F64 l_ab 0 1 = [TLincomRate].
-Proof. vm_compute. auto. Qed.
-
-(* PHASE a -5 read over [0,2): the RAW window lies before sample 0: GD_E_RANGE *)
-Lemma witness_raw_before_zero :
-  impl_read XAlg db_ab F64 p_m5 0 2 = None /\
-  length (spec_window XAlg db_ab F64 p_m5 0 2) = 2%nat /\
-  uncovered XAlg db_ab F64 p_m5 0 2 = [TRawNeg].
-Proof. vm_compute. auto. Qed.
-
 (* RAW INT16 before its frame offset, read as FLOAT64: 0.0 instead of NaN *)
 Lemma witness_raw_pad :
   impl_read XAlg db_fo F64 a 2 4 =
